@@ -73,8 +73,8 @@ def step (s : St) (line : String) : St × String :=
       match parseMode m a with
       | some mode =>
         let file := if pfx == "1" then s.fileT else s.fileF
-        let idx := select file mode p
-        let recs := records file mode p
+        let idx := selectFast file mode p
+        let recs := recordsFast file mode p
         let ok := recs == idx.map (fun i => s.rs[i]?)
         (s, s!"{showNats idx} {if ok then "ok" else "bad"}")
       | none => (s, "bad-op")
